@@ -182,8 +182,8 @@ func (r *c05Run) norm(s string) string {
 	return strings.ReplaceAll(s, r.parentB, "<BASE>")
 }
 
-// unroot maps a path reported by either side to a root-relative one.
-func unroot(root, p string) string {
+// c05Unroot maps a path reported by either side to a root-relative one.
+func c05Unroot(root, p string) string {
 	if p == root {
 		return "."
 	}
@@ -366,7 +366,7 @@ func (r *c05Run) execA(op c05Op) c05Out {
 		out := []string{}
 		for _, x := range m {
 			if r.mode == "abs" {
-				x = unroot(r.rootA, x)
+				x = c05Unroot(r.rootA, x)
 			}
 			out = append(out, x)
 		}
@@ -377,7 +377,7 @@ func (r *c05Run) execA(op c05Op) c05Out {
 		for n := 0; w.Step() && n < 100000; n++ {
 			x := w.Path()
 			if r.mode == "abs" {
-				x = unroot(r.rootA, x)
+				x = c05Unroot(r.rootA, x)
 			}
 			if err := w.Err(); err != nil {
 				x += " ERR " + c05Cat(err)
@@ -474,13 +474,13 @@ func (r *c05Run) execB(op c05Op) c05Out {
 		}
 		out := []string{}
 		for _, x := range m {
-			out = append(out, unroot(r.rootB, x))
+			out = append(out, c05Unroot(r.rootB, x))
 		}
 		return c05Res(nil, out...)
 	case "walk":
 		out := []string{}
 		filepath.Walk(p, func(x string, fi os.FileInfo, err error) error {
-			x = unroot(r.rootB, x)
+			x = c05Unroot(r.rootB, x)
 			if err != nil {
 				x += " ERR " + c05Cat(err)
 			}
@@ -528,6 +528,7 @@ func c05Guard(f func() c05Out) c05Out {
 
 type c05Failure struct {
 	Key      string
+	Sig      string // what differed and the two categories: witnesses of one key with different signatures are all reported
 	Step     int
 	What     string
 	Op       c05Op
@@ -554,7 +555,7 @@ func c05Hash(lines []string) string {
 	return hex.EncodeToString(h[:8])
 }
 
-func sameLines(a, b []string) bool {
+func c05SameLines(a, b []string) bool {
 	if len(a) != len(b) {
 		return false
 	}
@@ -566,7 +567,7 @@ func sameLines(a, b []string) bool {
 	return true
 }
 
-func sortedCopy(a []string) []string {
+func c05SortedCopy(a []string) []string {
 	b := append([]string(nil), a...)
 	sort.Strings(b)
 	return b
@@ -605,7 +606,7 @@ func c05RunSeq(mode string, tree []c05Ent, ops []c05Op, gen *rand.Rand, n int, l
 		// what the path(s) meet, on tree B before the step
 		var shapes []string
 		via := false
-		leafMissing, leafIsLink := false, false
+		leafMissing, leafIsLink, leafIsLinkSlash := false, false, false
 		if op.K != "glob" {
 			first := op.P
 			if op.K == "symlink" {
@@ -618,6 +619,11 @@ func c05RunSeq(mode string, tree []c05Ent, ops []c05Op, gen *rand.Rand, n int, l
 			} else {
 				leafIsLink = fi.Mode()&os.ModeSymlink != 0
 			}
+			if t := strings.TrimRight(first, "/"); t != first && !leafIsLink {
+				if fi, err := os.Lstat(run.pB(t)); err == nil && fi.Mode()&os.ModeSymlink != 0 {
+					leafIsLinkSlash = true
+				}
+			}
 			if op.Q != "" && op.K != "symlink" {
 				s2, v2 := c05Shape(run.rootB, op.Q)
 				shapes = append(shapes, "dst:"+s2)
@@ -625,11 +631,17 @@ func c05RunSeq(mode string, tree []c05Ent, ops []c05Op, gen *rand.Rand, n int, l
 			}
 		}
 
+		// RemoveAll whose path runs through a symbolic link that lives inside the directory being removed
+		selfRef := false
+		if op.K == "removeall" && via {
+			selfRef = c05LinkInsideTarget(run.rootB, op.P)
+		}
+
 		outA := c05Guard(func() c05Out { return run.execA(op) })
 		outB := run.execB(op)
 		before := snapB
 		snapA, snapB = run.snapshot(run.parentA), run.snapshot(run.parentB)
-		changed := !sameLines(before, snapB)
+		changed := !c05SameLines(before, snapB)
 
 		// ---- compare
 		what := ""
@@ -641,16 +653,16 @@ func c05RunSeq(mode string, tree []c05Ent, ops []c05Op, gen *rand.Rand, n int, l
 			if !(op.K == "removeall" && leafMissing && outB.Cat == "ok" && outA.Cat == "not-exist") {
 				what = "category"
 			}
-		case !sameLines(outA.Vals, outB.Vals):
+		case !c05SameLines(outA.Vals, outB.Vals):
 			switch op.K {
 			case "glob": // documented: listing-order
-				if sameLines(sortedCopy(outA.Vals), sortedCopy(outB.Vals)) {
+				if c05SameLines(c05SortedCopy(outA.Vals), c05SortedCopy(outB.Vals)) {
 					res.orderOff++
 				} else {
 					what = "value"
 				}
 			case "walk":
-				if sameLines(sortedCopy(outA.Vals), sortedCopy(outB.Vals)) {
+				if c05SameLines(c05SortedCopy(outA.Vals), c05SortedCopy(outB.Vals)) {
 					what = "order"
 				} else {
 					what = "value"
@@ -697,7 +709,8 @@ func c05RunSeq(mode string, tree []c05Ent, ops []c05Op, gen *rand.Rand, n int, l
 			f := c05Failure{Step: step, Op: op,
 				Expected: map[string]any{"side": "package os on tree B", "result": outB},
 				Actual:   map[string]any{"side": "Client/Server on tree A", "result": outA, "tree_diff(-os,+sftp)": diff}}
-			f.Key, f.What = run.classify(op, what, outA, outB, diff, leafIsLink)
+			f.Key, f.What = run.classify(op, what, outA, outB, diff, leafIsLink, leafIsLinkSlash, selfRef)
+			f.Sig = fmt.Sprintf("%s/os=%s,sftp=%s", what, outB.Cat, outA.Cat)
 			res.failures = append(res.failures, f)
 			if outA.Cat == "hang" {
 				return res // the connection is in an unknown state
@@ -719,7 +732,7 @@ func c05RunSeq(mode string, tree []c05Ent, ops []c05Op, gen *rand.Rand, n int, l
 
 // classify gives a failure its stable key. Known defects (DESIGN.md §8) are recognised by their mechanism,
 // checked on the spot, so that another violation by the same operation keeps its own key.
-func (r *c05Run) classify(op c05Op, what string, a, b c05Out, diff []string, leafIsLink bool) (key, text string) {
+func (r *c05Run) classify(op c05Op, what string, a, b c05Out, diff []string, leafIsLink, leafIsLinkSlash, selfRef bool) (key, text string) {
 	nonCanonical := func(p string) bool { return p != "" && path.Clean(p) != p }
 	switch {
 	case what == "hang" || what == "panic":
@@ -728,6 +741,11 @@ func (r *c05Run) classify(op c05Op, what string, a, b c05Out, diff []string, lea
 	// F14: Client.RemoveAll decides with Stat (follows links)
 	case op.K == "removeall" && leafIsLink:
 		return "removeall/follows-symlink", "RemoveAll of a symbolic link: os.RemoveAll unlinks the link; Client.RemoveAll Stats through it (deletes the target directory's contents / fails on a dangling or looping link)"
+
+	// the same family with a trailing slash: os.RemoveAll strips it (splitPath) and unlinks the link, the client
+	// hands "link/" to Stat/ReadDir/Remove, which the kernel resolves to the target directory (Lstat would not help)
+	case op.K == "removeall" && leafIsLinkSlash:
+		return "removeall/follows-symlink/trailing-slash", "RemoveAll(\"link/\"): os.RemoveAll strips the slash and unlinks the link; Client.RemoveAll deletes the contents of the directory the link points to and then fails to remove \"link/\""
 
 	// F8: a permission errno wrapped in something else than *os.PathError reaches the client as FAILURE
 	case what == "category" && b.Cat == "permission" && a.Cat == "other":
@@ -754,6 +772,16 @@ func (r *c05Run) classify(op c05Op, what string, a, b c05Out, diff []string, lea
 	if r.mode == "rel" && (nonCanonical(op.P) && op.K != "symlink" && op.K != "glob" || nonCanonical(op.Q)) {
 		return "workdir/path-cleaned-lexically", "with a server working directory a relative path is path.Join'ed (cleaned: trailing slash, \".\", \"x/..\" removed) before the kernel sees it; package os hands the path to the kernel as written"
 	}
+	switch {
+	case op.K == "removeall" && selfRef:
+		return "removeall/path-through-link-inside-removed-tree", "the path given to RemoveAll runs through a symbolic link that lives inside the directory being removed: os.RemoveAll works on directory descriptors (openat/unlinkat) and finishes; Client.RemoveAll re-resolves path+\"/\"+name for every request, so once it has removed that link the remaining paths no longer resolve"
+	case op.K == "removeall" && nonCanonical(op.P):
+		return "removeall/non-canonical-path", "os.RemoveAll normalises its argument before touching the tree (strips trailing slashes, refuses a final \".\" with EINVAL); Client.RemoveAll hands the text to STAT/READDIR/REMOVE as written"
+	case op.K == "remove" && what == "category" && a.Cat == "not-exist" && b.Cat != "not-exist":
+		if _, err := os.Stat(r.pB(op.P)); errors.Is(err, os.ErrNotExist) {
+			return "remove/error-from-stat-fallback", "REMOVE and RMDIR both failed with a non-ENOENT error (as os.Remove does), but Client.Remove then Stats the path and returns the STAT error (not-exist) instead"
+		}
+	}
 	switch what {
 	case "category":
 		return fmt.Sprintf("%s/category/os=%s,sftp=%s", op.K, b.Cat, a.Cat), "outcome category differs from package os"
@@ -767,25 +795,50 @@ func (r *c05Run) classify(op c05Op, what string, a, b c05Out, diff []string, lea
 	return op.K + "/tree", "the served tree differs from the os tree after the step"
 }
 
-// ---------------------------------------------------------------------------------------------
-// shrinking: delta debugging on fresh twin trees
-
-func c05Reproduces(in c05Input, key string) bool {
-	res := c05RunSeq(in.Mode, in.Tree, in.Ops, nil, 0, true)
-	for _, f := range res.failures {
-		if f.Key == key {
+// c05LinkInsideTarget reports whether a symbolic link met on the way to rel is itself located inside the
+// directory rel resolves to.
+func c05LinkInsideTarget(root, rel string) bool {
+	target, err := filepath.EvalSymlinks(c05Join(root, rel))
+	if err != nil {
+		return false
+	}
+	comps := strings.Split(path.Clean(rel), "/")
+	for i := 0; i < len(comps)-1; i++ {
+		link := c05Join(root, strings.Join(comps[:i+1], "/"))
+		fi, err := os.Lstat(link)
+		if err != nil || fi.Mode()&os.ModeSymlink == 0 {
+			continue
+		}
+		dir, err := filepath.EvalSymlinks(filepath.Dir(link))
+		if err != nil {
+			continue
+		}
+		if loc := dir + "/" + filepath.Base(link); strings.HasPrefix(loc, target+"/") {
 			return true
 		}
 	}
 	return false
 }
 
-func c05Shrink(in c05Input, key string, step int) c05Input {
+// ---------------------------------------------------------------------------------------------
+// shrinking: delta debugging on fresh twin trees
+
+func c05Reproduces(in c05Input, key, sig string) bool {
+	res := c05RunSeq(in.Mode, in.Tree, in.Ops, nil, 0, true)
+	for _, f := range res.failures {
+		if f.Key == key && f.Sig == sig {
+			return true
+		}
+	}
+	return false
+}
+
+func c05Shrink(in c05Input, key, sig string, step int) c05Input {
 	cur := c05Input{Mode: in.Mode, Tree: append([]c05Ent(nil), in.Tree...), Ops: append([]c05Op(nil), in.Ops[:step+1]...)}
 	if len(cur.Ops) == 0 {
 		cur.Ops = []c05Op{}
 	}
-	if !c05Reproduces(cur, key) {
+	if !c05Reproduces(cur, key, sig) {
 		return in // not reproducible from a fresh start with the prefix alone: keep everything
 	}
 	budget := 600
@@ -794,7 +847,7 @@ func c05Shrink(in c05Input, key string, step int) c05Input {
 			return false
 		}
 		budget--
-		return c05Reproduces(c, key)
+		return c05Reproduces(c, key, sig)
 	}
 	for round := 0; round < 3; round++ {
 		before := len(cur.Ops) + len(cur.Tree)
@@ -840,7 +893,7 @@ var c05WantedShapes = []string{
 
 func checkC05(c *lib.Ctx) {
 	r := c.R
-	r.Rule = "twin trees (seeded random small tree: dirs, files, relative/absolute/dangling/looping symlinks, hard links) under one scratch dir; tree A served by a real os-backed Server to a real Client over pipes, tree B operated with package os; PRNG sequences of 23 operation kinds over the names a b c d with nesting <= 3 (paths biased to existing entries, their children, dir-symlinks, dangling links, non-empty dirs, files used as directories; 5% written non-canonically), absolute paths and working-directory-relative paths (WithServerWorkingDirectory); after every step: outcome category, returned values, snapshot of both trees (names, types, modes, sizes, nlink, owners, contents, link texts, mtimes set by Chtimes). One case = (path mode, operation, tree state before); non-trivial = the os outcome is an error category, or the tree changes, or a path goes through a symbolic link"
+	r.Rule = "twin trees (seeded random small tree: dirs, files, relative/absolute/dangling/looping symlinks, hard links) under one scratch dir; tree A served by a real os-backed Server to a real Client over pipes, tree B operated with package os; PRNG sequences of 23 operation kinds over the names a b c d with nesting <= 3 (paths biased to existing entries, their children, dir-symlinks, dangling links, non-empty dirs, files used as directories; 5% written non-canonically), absolute paths and working-directory-relative paths (WithServerWorkingDirectory); after every step: outcome category, returned values, snapshot of both trees (names, types, modes, sizes, nlink, owners, contents, link texts, mtimes set by Chtimes). One case = (path mode, operation, tree state before); non-trivial = the os outcome is an error category, or the tree changes, or a path goes through a symbolic link. quick: 150 sequences of 20..40 operations; thorough: 6000 of 60..120 and 1000 of 200..400; half of the sequences in each path mode. Every failing sequence is delta-debugged on fresh twin trees (operations, then seed-tree entries) before it is reported; up to three witnesses with different signatures per key"
 	old := syscall.Umask(0o022) // documented: create/mode
 	defer syscall.Umask(old)
 	ids := []string{}
@@ -863,10 +916,11 @@ func checkC05(c *lib.Ctx) {
 		return
 	}
 
-	nSeq, maxOps := 150, 40
+	// quick: 150 sequences of 20..40 operations; thorough: 6000 of 60..120 and 1000 long ones of 200..400
+	nSeq, maxOps, nLong := 150, 40, 0
 	deadline := time.Now().Add(30 * time.Second)
 	if c.Tier == "thorough" {
-		nSeq, maxOps = 3000, 120
+		nSeq, maxOps, nLong = 7000, 120, 1000
 		deadline = time.Now().Add(9 * time.Minute)
 	}
 	type job struct {
@@ -880,7 +934,11 @@ func checkC05(c *lib.Ctx) {
 		if i%2 == 1 {
 			mode = "rel"
 		}
-		jobs[i] = job{mode, c.Rand.Int63(), maxOps/2 + c.Rand.Intn(maxOps/2+1)}
+		m := maxOps
+		if i >= nSeq-nLong {
+			m = 400
+		}
+		jobs[i] = job{mode, c.Rand.Int63(), m/2 + c.Rand.Intn(m/2+1)}
 	}
 	results := make([]*c05SeqResult, nSeq)
 	workers := runtime.NumCPU()
@@ -909,7 +967,7 @@ func checkC05(c *lib.Ctx) {
 	}
 	wg.Wait()
 
-	shrunk := map[string]int{}
+	shrunk := map[string]map[string]bool{}
 	skippedSeqs := 0
 	orderOff := 0
 	for i, res := range results {
@@ -921,16 +979,20 @@ func checkC05(c *lib.Ctx) {
 		c05Merge(r, res, &i)
 		for _, f := range res.failures {
 			r.Hist("failure:" + f.Key)
-			if shrunk[f.Key] >= 2 { // two minimised witnesses per key are reported; the rest is counted in the histogram
+			// up to three minimised witnesses per key, each with a different signature; the rest is counted in the histogram
+			if shrunk[f.Key] == nil {
+				shrunk[f.Key] = map[string]bool{}
+			}
+			if len(shrunk[f.Key]) >= 3 || shrunk[f.Key][f.Sig] {
 				continue
 			}
-			shrunk[f.Key]++
-			min := c05Shrink(res.in, f.Key, f.Step)
+			shrunk[f.Key][f.Sig] = true
+			min := c05Shrink(res.in, f.Key, f.Sig, f.Step)
 			// re-run the minimal input for the evidence shown with it
 			exp, act, what, stepText := f.Expected, f.Actual, f.What, c05OpText(f.Op)
 			if rr := c05RunSeq(min.Mode, min.Tree, min.Ops, nil, 0, true); rr != nil {
 				for _, g := range rr.failures {
-					if g.Key == f.Key {
+					if g.Key == f.Key && g.Sig == f.Sig {
 						exp, act, what, stepText = g.Expected, g.Actual, g.What, c05OpText(g.Op)
 						break
 					}
